@@ -314,6 +314,17 @@ func (g *G) scWith() []Node {
 		)
 	}
 	if g.R.Bool() {
+		// 12.2: the declared name is resolved before the initialiser runs, so an initialiser
+		// that adds the name to the with object, or deletes it there, does not move the store
+		va, vd, xa, xd := g.fresh("va"), g.fresh("vd"), g.fresh("xa"), g.fresh("xd")
+		body = append(body,
+			V(va, ObjL(P("keep", N(1)))), V(vd, ObjL(P(xd, S("own")))),
+			&With{Obj: Id(va), Body: Blk(V(xa, Seq(Asg(Dot(Id(va), xa), S("added")), S("init-a"))), Log(S("with-var-add"), Id(xa), Dot(Id(va), xa)))},
+			&With{Obj: Id(vd), Body: Blk(V(xd, Seq(Un("delete", Dot(Id(vd), xd)), S("init-d"))), Log(S("with-var-del"), Id(xd), Dot(Id(vd), xd)))},
+			Log(S("after-with-var"), Id(xa), Dot(Id(va), xa), Id(xd), Dot(Id(vd), xd)),
+		)
+	}
+	if g.R.Bool() {
 		c := g.fresh("c")
 		body = append(body, V(c, nil), &With{Obj: ObjL(P("w", N(7))), Body: ES(Asg(Id(c), FnE("", nil, Ret(Id("w")))))}, Log(S("with-closure"), CallN(c)))
 	}
